@@ -299,6 +299,31 @@ def _time_farthest(a, pre):
     return pre[0].farthest(pre[1], pre[2])
 
 
+# ---------------------------------------------------------------- C14
+@op("copy")
+def _copy(a, pre):
+    import copy
+    import pickle
+
+    x = pre[0]
+    how = a["how"]
+    if how == "copy":
+        y = copy.copy(x)
+    elif how == "deepcopy":
+        y = copy.deepcopy(x)
+    else:
+        y = pickle.loads(pickle.dumps(x, protocol=int(how[-1])))
+    r = enc(y)
+    if r["k"] == "dur" and hasattr(y, "total_seconds"):
+        r["ts"] = proj.f2d3(y.total_seconds())
+    try:
+        r["eq"] = bool(y == x)
+    except Exception:  # noqa: BLE001
+        r["eq"] = False
+    r["same_type"] = type(y) is type(x)
+    return r
+
+
 # ---------------------------------------------------------------- execution
 class HarnessTimeout(Exception):
     """the call did not return within OP_TIMEOUT seconds (observed as non-termination)"""
